@@ -187,12 +187,20 @@ fn gen_bed(w: &World) -> (Vec<BedModel>, usize) {
                 }
             })
             .collect();
-        v.push(BedModel {
-            chrom,
-            start,
-            end,
-            aux,
-        });
+        let mut m = BedModel { chrom, start, end, aux };
+        if w.chance(1, 12) {
+            w.probe("related_fields_or_records");
+            match (w.draw(4), v.last()) {
+                (0, Some(prev)) => m = prev.clone(),
+                (1, Some(prev)) => m.chrom = prev.chrom.clone(),
+                (2, _) => m.end = m.start,
+                _ => {
+                    m.start = i64::MAX as u64;
+                    m.end = i64::MAX as u64 + 1;
+                }
+            }
+        }
+        v.push(m);
     }
     (v, k)
 }
@@ -304,7 +312,9 @@ fn gen_gff(w: &World, d: Dialect) -> Vec<GffModel> {
         }
         // at most 5 keys: the hash order of the keys is forced by rejection sampling (5! = 120)
         while w.more(attrs.len() as u64, 5) {
-            let mut key = match w.draw(10) {
+            let mut key = match w.draw(11) {
+                // keys that carry meaning in GFF3 / GTF and might be special-cased
+                10 => (*w.pick(&["ID", "Parent", "Name", "Note", "gene_id", "transcript_id", "Dbxref", "Target", "Is_circular", "Alias"])).to_string(),
                 // a key that extends an earlier key of this record
                 0 if !attrs.is_empty() => format!("{}{}", attrs[w.draw(attrs.len() as u64) as usize].0, gen_attr_string(w, d, false)),
                 // a key that differs from an earlier one only in letter case
@@ -328,6 +338,13 @@ fn gen_gff(w: &World, d: Dialect) -> Vec<GffModel> {
                 let max_vals = if w.chance(1, 20) { 12 } else { 3 };
                 while w.more(vals.len() as u64, max_vals) && w.chance(2, 3) {
                     vals.push(gen_attr_string(w, d, false));
+                }
+            }
+            if w.chance(1, 15) {
+                // a value equal to its key, or the same value twice
+                let dup = if w.chance(1, 2) { key.clone() } else { vals[0].clone() };
+                if !(d == Dialect::Gff3 && dup.starts_with(' ')) {
+                    vals.push(dup);
                 }
             }
             attrs.push((key, vals));
@@ -356,7 +373,7 @@ fn gen_gff(w: &World, d: Dialect) -> Vec<GffModel> {
             0 => None,
             p => Some(p as u8 - 1),
         };
-        v.push(GffModel {
+        let mut m = GffModel {
             seqname: gen_field(w, 0, 6, true),
             source: gen_field(w, 0, 6, false),
             feature: gen_field(w, 0, 6, false),
@@ -367,7 +384,22 @@ fn gen_gff(w: &World, d: Dialect) -> Vec<GffModel> {
             phase,
             attrs,
             order,
-        });
+        };
+        if w.chance(1, 12) {
+            w.probe("related_fields_or_records");
+            match (w.draw(5), v.last()) {
+                (0, Some(prev)) => m = prev.clone(), // the identical line twice in a row
+                (1, Some(prev)) => m.seqname = prev.seqname.clone(),
+                (2, _) => m.source = m.seqname.clone(),
+                (3, _) => m.end = m.start,
+                _ => {
+                    m.score = "1000".to_string();
+                    m.strand = "-".to_string();
+                    m.phase = Some(0);
+                }
+            }
+        }
+        v.push(m);
     }
     v
 }
@@ -1392,7 +1424,7 @@ pub fn property() -> Property {
         ],
         expected_probes: &[
             "multi_valued_attribute", "key_order_differs_from_insertion", "quoted_csv_field", "csv_field_or_line_split_across_reads",
-            "damage_bad_number", "damage_bad_phase", "damage_phase_in_u8_range", "damage_column_missing", "damage_column_added", "damage_trailing_tab", "damage_empty_column_inserted", "damage_bed_fewer_than_three_columns", "eintr_surfaced_by_reader", "many_records_regime", "all_partitions_sweep", "first_column_starts_with_hash", "field_with_tab_or_line_feed", "many_values_record", "damaged_line_follows_comment", "damaged_last_line_without_newline",
+            "damage_bad_number", "damage_bad_phase", "damage_phase_in_u8_range", "damage_column_missing", "damage_column_added", "damage_trailing_tab", "damage_empty_column_inserted", "damage_bed_fewer_than_three_columns", "eintr_surfaced_by_reader", "many_records_regime", "related_fields_or_records", "all_partitions_sweep", "first_column_starts_with_hash", "field_with_tab_or_line_feed", "many_values_record", "damaged_line_follows_comment", "damaged_last_line_without_newline",
         ],
         quick_runs: 300_000,
         thorough_runs: 20_000_000,
